@@ -16,10 +16,10 @@ open Real
 /-- the recovered amplitude scale `A·A0/2^32` (slightly below `A/2`) -/
 noncomputable def lkR (A : ℝ) : ℝ := A * cossinAmplitude / 4294967296
 
-theorem cossinAmplitude_val : cossinAmplitude = 2147455795.2 := by unfold cossinAmplitude; norm_num
+theorem lk_cossinAmplitude_val : cossinAmplitude = 2147455795.2 := by unfold cossinAmplitude; norm_num
 
 theorem lkR_le (A : ℝ) (hA : 0 ≤ A) : lkR A ≤ A / 2 ∧ 0.49999 * A ≤ lkR A := by
-  unfold lkR; rw [cossinAmplitude_val]
+  unfold lkR; rw [lk_cossinAmplitude_val]
   constructor <;> nlinarith
 
 private theorem floor_div_real (n : Int) :
@@ -44,8 +44,8 @@ private theorem mix_core (A u v : ℝ) (x c : Int) (hA : 0 ≤ A) (hu : |u| ≤ 
     |((x * c / 2147483648 : Int) : ℝ) - lkR A * (2 * u * v)| ≤ 9.1e-6 * A + 2 := by
   obtain ⟨f0, f1⟩ := floor_div_real (x * c)
   push_cast at f0 f1
-  rw [cossinAmplitude_val] at hc
-  unfold lkR; rw [cossinAmplitude_val]
+  rw [lk_cossinAmplitude_val] at hc
+  unfold lkR; rw [lk_cossinAmplitude_val]
   set ξ := (x : ℝ) - A * u with hξ
   set η := (c : ℝ) / 2147455795.2 - v with hη
   have hcv : (c : ℝ) = 2147455795.2 * (v + η) := by rw [hη]; field_simp; ring
